@@ -43,6 +43,29 @@ def dir_arg(kp, up):
     return (word.upper() + ' ').strip().lower()  # another fresh str object
 
 
+_F = [0]
+
+
+def call_transpose(ctx, kp, src, interval, direction):
+    """kp.transpose in the call forms its documented signature allows - transpose(input_encoding, interval, input_format='kern',
+    output_format='kern', direction='up'): keywords, all positional, mixed, and the two-step path through the agnostic pitch
+    (transpose_encoding_to_agnostic / transpose_agnostic_to_encoding with positional format and direction)."""
+    _F[0] += 1
+    k = _F[0] % 5
+    ctx.mon(f'call_form_{k}')
+    fmt = kp.NotationEncoding.HUMDRUM.value
+    if k == 0:
+        return kp.transpose(src, interval, direction=direction)
+    if k == 1:
+        return kp.transpose(src, interval, fmt, fmt, direction)
+    if k == 2:
+        return kp.transpose(src, interval, fmt, output_format=fmt, direction=direction)
+    if k == 3:
+        return kp.transpose(input_encoding=src, interval=interval, input_format=fmt, output_format=fmt, direction=direction)
+    ap = kp.transpose_encoding_to_agnostic(src, interval, fmt, direction)
+    return kp.transpose_agnostic_to_encoding(ap, kp.IntervalsByName['P1'], fmt, direction)
+
+
 def one(ctx, kp, letter, alt, octave, name, up, *, record=True):
     src = I.spell(letter, alt, octave)
     direction = dir_arg(kp, up)
@@ -53,7 +76,7 @@ def one(ctx, kp, letter, alt, octave, name, up, *, record=True):
     ctx.ev()
     ctx.mon('transpose_call')
     try:
-        got = kp.transpose(src, kp.IntervalsByName[name], direction=direction)
+        got = call_transpose(ctx, kp, src, kp.IntervalsByName[name], direction)
     except Exception as e:
         if spellable:
             ctx.violation('raises-on-spellable', f'transpose({src}, {name}, {direction}) raised {type(e).__name__}: {e}; '
@@ -77,7 +100,7 @@ def one(ctx, kp, letter, alt, octave, name, up, *, record=True):
     ctx.ev()
     ctx.mon('inverse_call')
     try:
-        back = kp.transpose(got, kp.IntervalsByName[name], direction=dir_arg(kp, not up))
+        back = call_transpose(ctx, kp, got, kp.IntervalsByName[name], dir_arg(kp, not up))
         if back != src:
             ctx.violation('inverse', f'{src} {direction} {name} -> {got} -> back {back!r} (expected {src!r})', case)
     except Exception as e:
